@@ -306,10 +306,21 @@ Definition at_alt_end (s : str) : bool :=
   | r => match lit [124; 124] r with Some _ => true | None => false end
   end.
 
-(** [range()] (after the repairs): leading blanks are skipped; a hyphen range is a whole
-    alternative; otherwise a blank-separated comparator set. *)
+(** [peek(alt((literal("||"), eof)))]: nothing is written in this alternative *)
+Definition at_empty_alt (s : str) : bool :=
+  match s with
+  | [] => true
+  | _ => match lit [124; 124] s with Some _ => true | None => false end
+  end.
+(** the empty alternative is [*], i.e. what the partial version [*] gives: [>=0.0.0] *)
+Definition star_bs : option boundset := at_least (Including (v3 0 0 0)).
+
+(** [range()] (after the repairs): leading blanks are skipped; an empty alternative is [*];
+    a hyphen range is a whole alternative; otherwise a blank-separated comparator set. *)
 Definition range_p (s0 : str) : option (list boundset * str) :=
   let s := space0 s0 in
+  if at_empty_alt s then Some (opt_to_list star_bs, s)
+  else
   match hyphen_p s with
   | Some (b, r) => if at_alt_end r then Some (opt_to_list b, r) else simples_p s
   | None => simples_p s
